@@ -89,7 +89,7 @@ pub fn seq_case_from_bytes(data: &[u8]) -> SeqCase {
             12 => if byte(u) % 2 == 0 { Op::DeadlineWalk { k: byte(u) % max_key } } else {
                 Op::JumpDuring { after_reads: byte(u) % 4, by_ms: pick(u, &[1u32, 500, 1001, 2500]), op: Box::new(write_op(u, max_key)) }
             },
-            13 => Op::SweepRotation,
+            13 => if byte(u) % 4 == 0 { Op::Fill { first: byte(u) % 100, count: 10 + byte(u) % 60, w: 1 + byte(u) % 5, ttl: if byte(u) % 2 == 0 { None } else { Some(TtlSel::Secs((byte(u) % 7) as u32)) } } } else { Op::SweepRotation },
             14 => if byte(u) % 2 == 0 { Op::ReadAll { keys: vec![byte(u) % max_key] } } else {
                 let count = 2 + byte(u) % 3;
                 Op::IterSteps { map: byte(u) % 2 == 0, keys: (0..count).map(|_| byte(u) % max_key).collect(), between: (0..count - 1).map(|_| write_op(u, max_key)).collect() }
